@@ -625,7 +625,9 @@ func (s *Sim) DisarmStepBound() {
 // that a deschedule chosen by the simulator is never held against the product.
 func (s *Sim) SetDeadline(name string, d time.Duration) {
 	s.mu.Lock()
-	s.deadlines[name] = time.Now().Add(d - s.jumped)
+	// CPU time already consumed but not yet charged to the fake clock belongs to the past.
+	debt := time.Duration(s.steps-s.charged) * s.cfg.StepCost
+	s.deadlines[name] = time.Now().Add(debt + d - s.jumped)
 	s.mu.Unlock()
 }
 
